@@ -66,16 +66,21 @@ def main():
                 raise
             return ("__err__", type(e).__name__)
 
+    OBJ = [False]   # object-dtype mode: cells are tuples / lists / frozensets / None / str ... (case["vals"] holds them)
     VALS = [None]   # "real numbers" mode: cells are the doubles / float32s / ints of case["vals"], reported exactly
 
     def cellenc(x):
         """a cell as the harness compares it: the integer cell id, or (vals mode) the exact rational of the number held"""
+        if OBJ[0]:                   # object-dtype table: the cell is an arbitrary Python object, reported type-exactly
+            return ["o", enc(x)]
         if VALS[0] is not None:
             n, d = float(x).as_integer_ratio()
             return [n, d]
         return int(x) - OFF[0]
 
     def is_cell(r):
+        if OBJ[0]:                   # anything that is not a table / error / sentinel (checked by the callers) is the cell
+            return True
         if VALS[0] is not None:      # a numpy scalar (a plain Python float is get()'s default, never a cell)
             return isinstance(r, (np.floating, np.integer)) and not isinstance(r, (bool, np.bool_))
         if OFF[0]:
@@ -87,6 +92,19 @@ def main():
         if is_cell(r): return ["scalar", cellenc(r)]
         if isinstance(r, float): return ["default-float", r]
         return ["other", repr(r)[:80]]
+
+    def flatcells(a):
+        a = np.asarray(a) if not isinstance(a, np.ndarray) else a
+        return [a[ix] for ix in np.ndindex(*a.shape)]
+
+    def shallow(v, cur):
+        if isinstance(v, tuple) and len(v) == 2 and v[0] == "__err__": return ["err", v[1]]
+        if v is cur: return ["self"]
+        if isinstance(v, Table):
+            ti = v.table_index
+            return ["table", type(v).__name__, [enc(n) for n in ti.field_names], [[enc(e) for e in d] for d in ti.field_domains],
+                    [cellenc(x) for x in flatcells(v._data)]]
+        return scalar_obs(v)
 
     def obs(r, cur):
         if isinstance(r, tuple) and len(r) == 2 and r[0] == "__err__":
@@ -115,10 +133,16 @@ def main():
                     it = catching(lambda: [[enc(k), scalar_obs(v)] for k, v in r.items()])
                     extra["items"] = it if isinstance(it, list) else ["err", it[1]]
                     extra["len"] = catching(lambda: len(r))
+            # the returned table is a table: its own keys / len / items (one level deep)
+            ks = catching(lambda: [enc(k) for k in r.keys()])
+            ln = catching(lambda: len(r))
+            its = catching(lambda: [[enc(k), shallow(v, r)] for k, v in r.items()])
             return ["table", type(r).__name__, [enc(n) for n in ti.field_names],
                     [[enc(e) for e in d] for d in ti.field_domains],
-                    [cellenc(x) for x in np.asarray(r._data).ravel()], probs, extra,
-                    {"data_shape": list(np.asarray(r._data).shape), "dom_types": [type(d).__name__ for d in ti.field_domains]}]
+                    [cellenc(x) for x in flatcells(r._data)], probs, extra,
+                    {"data_shape": list(np.asarray(r._data).shape), "dom_types": [type(d).__name__ for d in ti.field_domains],
+                     "keys": ks if isinstance(ks, list) else ["err", ks[1]], "len": ln if isinstance(ln, int) else ["err", ln[1]],
+                     "items": its if isinstance(its, list) else ["err", its[1]]}]
         if is_cell(r):
             return ["scalar", cellenc(r)]
         return ["other", repr(r)[:80]]
@@ -135,7 +159,12 @@ def main():
         names = [dec(n) for n in case["names"]]
         shape = tuple(len(d) for d in doms)
         flat = [x + bump for x in case["data"]]
-        if "vals" in case:
+        if rep.get("dtype") == "object":
+            data = np.empty(shape, dtype=object)          # filled cell by cell: numpy must not read tuples as dimensions
+            order = list(reversed(case["data"])) if bump else case["data"]
+            for ix, k in zip(np.ndindex(*shape), order):
+                data[ix] = dec(case["vals"][k])
+        elif "vals" in case:
             nums = [float.fromhex(v) if isinstance(v, str) else v for v in case["vals"]]
             nums = nums + [999.0] * 1000                      # id 999 = from_dict's default_value
             dt = {"prob64": np.float64, "prob32": np.float32, "probint": np.int64}[rep["dtype"]]
@@ -190,7 +219,8 @@ def main():
     def one(case, pl):
         rep = case.get("rep", {})
         OFF[0] = 1 if rep.get("dtype") == "float" else 0
-        VALS[0] = case["vals"] if "vals" in case else None
+        OBJ[0] = rep.get("dtype") == "object"
+        VALS[0] = case["vals"] if ("vals" in case and not OBJ[0]) else None
         if rep.get("reuse"):
             # a twin table over the same labels with other numbers is built and USED first (caches on the
             # domaintuple / TableIndex objects are filled), then the real table is derived from its objects
@@ -203,18 +233,24 @@ def main():
             t = build(case)
         res = {"names": [enc(n) for n in t.table_index.field_names],
                "doms": [[enc(e) for e in d] for d in t.table_index.field_domains],
-               "data": [cellenc(x) for x in np.asarray(t._data).ravel()],
-               "shape": list(t.shape), "ndim": int(t.ndim),
-               "keys": [enc(k) for k in t.keys()], "iter": [enc(k) for k in t], "len": len(t)}
-        its = catching(lambda: list(t.items()))
-        if isinstance(its, tuple) and its and its[0] == "__err__":
-            res["items"] = [["err", its[1]]]
-            res["item_keys"] = []
-        else:
-            res["items"] = [obs(v, t) for _, v in its]
-            res["item_keys"] = [enc(k) for k, _ in its]
-        vals = catching(lambda: list(t.values()))
-        res["values"] = [["err", vals[1]]] if (isinstance(vals, tuple) and vals and vals[0] == "__err__") else [obs(v, t) for v in vals]
+               "data": [cellenc(x) for x in flatcells(t._data)],
+               "shape": list(t.shape), "ndim": int(t.ndim)}
+
+        def table_level():
+            res.update({"keys": [enc(k) for k in t.keys()], "iter": [enc(k) for k in t], "len": len(t)})
+            its = catching(lambda: list(t.items()))
+            if isinstance(its, tuple) and its and its[0] == "__err__":
+                res["items"] = [["err", its[1]]]
+                res["item_keys"] = []
+            else:
+                res["items"] = [obs(v, t) for _, v in its]
+                res["item_keys"] = [enc(k) for k, _ in its]
+            vals = catching(lambda: list(t.values()))
+            res["values"] = [["err", vals[1]]] if (isinstance(vals, tuple) and vals and vals[0] == "__err__") else [obs(v, t) for v in vals]
+        # observation ORDER on the one table object: the parent's keys/len/items are taken before the selections
+        # (then sub-tables are derived from an already used parent) or only after them (fresh parent)
+        if rep.get("table_obs", "before") == "before":
+            table_level()
         chains = []
         kept = []           # (selector objects, first result object, its first observation) for the stale re-query
         for ch in case["chains"]:
@@ -247,6 +283,8 @@ def main():
                     out["action_dist"] = obs(catching(lambda: t.action_dist(sels[0])), t)
             chains.append(out)
             kept.append((sels, first, steps))
+        if rep.get("table_obs", "before") != "before":
+            table_level()
         # a second, different table (other size, other label order) is built and indexed with the SAME selector
         # objects; then the results of the first calls are queried again
         d2 = [list(reversed(INPUTS["doms"][0])) + ["__other__"]] + [list(d) for d in INPUTS["doms"][1:]][:1]
